@@ -1010,6 +1010,8 @@ def compare_copy(history, obs, src_recs, cpy_recs, phase) -> list:
             continue
         if section == "type" and name == "uid":
             continue  # identifiers are property C06; "equal attributes" is read modulo identifiers
+        if history["cls"] == "RootGroup" and lab == "@" and (section in ("class", "type") or (section == "attrs" and name != "metadata")):
+            continue  # name, flags and type of the root are hard-wired; its copy is an ordinary group
         if lab.rsplit(":", 1)[-1] in BOOKKEEPING and (section == "type" or (section == "attrs" and name == "values")):
             continue  # compared through "values(mapped)": the copy may renumber these references
         wit = _entry_witness(e, expected, cpy_recs) + tag
@@ -1119,7 +1121,7 @@ def judge(history, obs) -> list:  # noqa: C901  pylint: disable=too-many-branche
             wit = f"{err['type']}@{err['where']}{mtag}"
         viol.append(("copy-yields-entity", wit, {"class": obs["src_class"], "error": err}))
         return viol
-    if obs["copy_class"] != obs["src_class"]:
+    if obs["copy_class"] != obs["src_class"] and obs["src_class"] != "RootGroup":  # a file has one root: its copy may be any group
         viol.append(("copy-yields-entity", f"{obs['copy_defined_in']}.copy:class-differs", {"source": obs["src_class"], "copy": obs["copy_class"]}))
     if obs["copy_is_source"]:
         viol.append(("copy-yields-entity", f"{obs['copy_defined_in']}.copy:returns-the-source", {}))
